@@ -414,3 +414,18 @@ M('c08-date-getter-hands-store-to-delegate', 'C08', 'R3', 'falcon/request.py',
 
         return date_time.date()
 """)
+
+# R15 the "nothing to decode" shortcut excludes both '%' and '+' (sa-am03464, sa-am03493)
+URI = 'falcon/util/uri.py'
+ENC = "    is_encoded = '+' in query_string or '%' in query_string\n"
+M('c08-shortcut-forgets-plus', 'C08', 'R15', URI, ENC, "    is_encoded = '%' in query_string\n")
+M('c08-shortcut-plus-test-negated', 'C08', 'R15', URI, ENC, "    is_encoded = '+' not in query_string or '%' in query_string\n")
+M('c08-shortcut-forgets-percent', 'C08', 'R15', URI, ENC, "    is_encoded = '+' in query_string\n")
+M('c08-shortcut-needs-both', 'C08', 'R15', URI, ENC, "    is_encoded = '+' in query_string and '%' in query_string\n")
+M('c08-value-stored-raw-when-encoded', 'C08', 'R15', URI,
+  "            elif is_encoded:\n                params[k] = decode(v)\n            else:\n                params[k] = v\n",
+  "            elif not is_encoded:\n                params[k] = decode(v)\n            else:\n                params[k] = v\n")
+M('c08-name-never-decoded', 'C08', 'R15', URI,
+  "        if is_encoded:\n            k = decode(k)\n", "        if is_encoded and not k:\n            k = decode(k)\n")
+# negative controls (exit 0): operands swapped; `plain = '+' not in qs and '%' not in qs` with `if not plain:`; the test inlined at
+# each site; the test per field (`'+' in field or '%' in field`) or per value; the shortcut removed (always decode)
